@@ -533,11 +533,50 @@ def gen_writers(tier, seed):
             yield [via, [rnd.choice(ops) for _ in range(n)]]
 
 
+def membership(via, hist):
+    """(completed, not completed) after the history: {identifier: step tag of the data it holds}; operations that raise are
+    skipped (a refusal is an outcome, not an error)"""
+    tmp = tempfile.TemporaryDirectory(prefix="c13m_", dir=_TMPROOT)
+    try:
+        with as_master_process():
+            ds = open_store(via, tmp.name, "w")
+            writer = make_writer(via, ds)
+            for step, op in enumerate(hist):
+                try:
+                    if op[0] == "o":
+                        close_store(via, ds)
+                        ds = open_store(via, tmp.name, op[1])
+                        writer = make_writer(via, ds)
+                    else:
+                        apply_real(via, ds, op, step, writer)
+                except Exception:
+                    pass
+            out = []
+            for members in (ds.completed, ds.not_completed):
+                out.append({Path(str(m.unique_id)).name: str(m.read()).split(":")[0] for m in members})
+            close_store(via, ds)
+            return out
+    finally:
+        tmp.cleanup()
+
+
 def contract_history(case):
     via, hist = case[0], [list(op) for op in case[1]]
     res = run_history(via, hist)
     if res is not None:
         return ("fail", res[0], res[1])
+    # a record has one identity: where the model leaves a choice (append mode, success after a failure), the store must make
+    # the same choice whether the record is named x or results/x
+    if via == "sql":
+        for t, op in enumerate(hist):
+            if op[0] in ("w", "n") and op[1].startswith("results/"):
+                plain = hist[:t] + [[op[0], canon(via, op[1])]]
+                a, b = membership(via, hist[:t + 1]), membership(via, plain)
+                if a != b:
+                    mode = ([o[1] for o in hist[:t] if o[0] == "o"] or ["w"])[-1]
+                    return ("fail", f"sql/{mode}/{OPNAME[op[0]]}/table-qualified-identifier-treated-differently",
+                            f"{snippet(via, hist[:t + 1])} -> completed {a[0]}, not completed {a[1]}; the same history with "
+                            f"{canon(via, op[1])!r} instead of {op[1]!r} -> completed {b[0]}, not completed {b[1]}")
     return ("ok", any(op[0] != "o" for op in hist))
 
 
